@@ -36,6 +36,7 @@ func main() {
 			os.Exit(2)
 		}
 		r := core.NewRun(p.ID, tier, p.Level)
+		core.StartWatchdog(p.ID, tier)
 		func() {
 			defer func() {
 				if x := recover(); x != nil {
